@@ -69,6 +69,29 @@ def seeded(ctx, n, length):
     return out
 
 
+def lifetime_boundary(ctx):
+    """sessions around the end of a cookie's lifetime (60 s): presented 1 s before it, exactly at it (in one advance or two), and
+    1 s after it, for every chain containing the TTL codec, with other traffic rotating the pool in between."""
+    rng = random.Random(ctx.seed * 97 + 11)
+    out = []
+    j = 0
+    for codec in [c for c in CODECS if "aesttl" in c]:
+        for parts in ([59], [60], [30, 30], [1, 59], [61], [60, 1], [59, 1], [20, 20, 20]):
+            for nk in (2, 3):
+                keys = R.KEYS[:nk]
+                steps = [{"op": "upsert", "k": k, "v": rng.randrange(6), "w": rng.choice([1, 2])} for k in keys]
+                steps += [{"op": "serve", "cookie": "none", "mut": "none"} for _ in range(rng.randint(0, 2))]
+                steps.append({"op": "serve", "cookie": "none", "mut": "none"})          # mints the session's cookie
+                for d in parts:
+                    steps.append({"op": "adv", "d": d})
+                    steps.append({"op": "serve", "cookie": "issued", "mut": "none"})
+                    steps.append({"op": "serve", "cookie": "issued", "mut": "none"})
+                out.append({"id": "life-%d" % j, "cfg": {"subject": rng.choice(["rr", "rb"]), "sticky": codec_str(codec), "table": j},
+                            "steps": steps})
+                j += 1
+    return out
+
+
 def classify(clause, sc, report, evs):
     # which codec and URL class was involved: the defect sites differ per codec
     sticky = sc["cfg"].get("sticky", "")
@@ -88,6 +111,7 @@ def run(ctx, replay):
     behs = vlib.gen_tlc(ctx, "Gen_Sticky", vlib.make_cfg(spec="GSpec", constants=consts(40, depth=14), invariants=["Emit"]),
                         "gen-sticky", num=200 if quick else 2000, depth=15, seed=ctx.seed)
     scs = from_tlc(behs[:1500 if quick else 20000], ["rr", "rb"]) + seeded(ctx, 80 if quick else 800, 60 if quick else 200)
+    scs += lifetime_boundary(ctx)
     # malformed values of every length (truncations of an issued cookie, never-issued strings over the cookie alphabet)
     for ci, codec in enumerate(CODECS):
         for subject in ("rr", "rb"):
